@@ -6,6 +6,7 @@ package handler
 
 import (
 	"io"
+	"sync"
 	"time"
 
 	"github.com/hashicorp/go-hclog"
@@ -23,6 +24,17 @@ type Solo struct {
 	R    *raft.Raft
 	Name string
 	old  []*raft.Raft
+	mu   sync.Mutex // guards H and R against the observer goroutine of the C06 driver
+}
+
+// Live returns the current incarnation and whether it has not crashed (for concurrent observers).
+func (s *Solo) Live() (*raft.Raft, bool) {
+	s.mu.Lock()
+	defer s.mu.Unlock()
+	if s.R == nil || s.H == nil {
+		return nil, false
+	}
+	return s.R, s.D.Epoch() == s.H.Epoch()
 }
 
 func conf(name string) *raft.Config {
@@ -46,14 +58,19 @@ func NewSolo(name string) *Solo {
 
 // Start creates a new incarnation on the current durable image.
 func (s *Solo) Start() error {
-	s.H = s.D.Open()
-	s.Tr = s.Net.NewTrans(s.Name, s.D, s.H.Epoch(), false, false)
-	fsm := sim.NewRecFSM(s.D, s.H.Epoch())
-	r, err := raft.NewRaft(conf(s.Name), sim.WrapFSM(fsm, 0), s.H, s.H, s.H, s.Tr)
+	h := s.D.Open()
+	tr := s.Net.NewTrans(s.Name, s.D, h.Epoch(), false, false)
+	fsm := sim.NewRecFSM(s.D, h.Epoch())
+	s.mu.Lock()
+	s.H, s.Tr, s.R = h, tr, nil
+	s.mu.Unlock()
+	r, err := raft.NewRaft(conf(s.Name), sim.WrapFSM(fsm, 0), h, h, h, tr)
 	if err != nil {
 		return err
 	}
+	s.mu.Lock()
 	s.R = r
+	s.mu.Unlock()
 	return nil
 }
 
